@@ -278,6 +278,54 @@ impl<X: Payload> Payload for Option<X> {
     }
 }
 
+impl<X: Payload> Payload for Vec<X> {
+    fn a(&self) -> i8 {
+        match self.first() {
+            None => 0,
+            Some(x) => x.a() + 1,
+        }
+    }
+
+    fn fp(&self, out: &mut String) {
+        out.push_str("V[");
+        for (i, x) in self.iter().enumerate() {
+            if i > 0 {
+                out.push(';');
+            }
+            x.fp(out);
+        }
+        out.push(']');
+    }
+
+    fn clone_alt(&self) -> Self {
+        self.iter().map(|x| x.clone_alt()).collect()
+    }
+}
+
+/// a user-defined generic wrapper (std derives: every impl is bounded by `X: Trait`)
+#[derive(Debug, Clone, Copy, PartialEq, Eq, PartialOrd, Ord, Hash, Default)]
+pub struct Wrap<X>(pub X);
+
+impl<X: Payload> Payload for Wrap<X> {
+    fn a(&self) -> i8 {
+        self.0.a()
+    }
+
+    fn fp(&self, out: &mut String) {
+        out.push_str("Wr(");
+        self.0.fp(out);
+        out.push(')');
+    }
+
+    fn clone_alt(&self) -> Self {
+        Wrap(self.0.clone_alt())
+    }
+}
+
+pub fn vec1<X>(x: X) -> Vec<X> {
+    vec![x]
+}
+
 impl<X: Payload> Payload for [X; 2] {
     fn a(&self) -> i8 {
         self[0].a() * 2 + self[1].a()
